@@ -223,15 +223,21 @@ func execC13(raw json.RawMessage, wantLog bool) (out Outcome) {
 	versions := map[int][]COp{} // id -> inserts
 	var events []cEvent
 	var seq uint64
-	// sequential prefix
-	for _, op := range c.Pre {
-		noteId(op.Id)
-		err := idx.Insert(idOf(op.Id), amath.Vector(append([]float32(nil), op.Vec...)), nil, op.Lvl)
-		seq++
-		inv := seq
-		seq++
-		events = append(events, cEvent{w: -1, op: op, inv: inv, ret: seq, ok: err == nil})
-		versions[op.Id] = append(versions[op.Id], op)
+	// sequential prefix (guarded: a path that takes one lock twice must not hang the harness)
+	if runGuarded(func() {
+		for _, op := range c.Pre {
+			noteId(op.Id)
+			err := idx.Insert(idOf(op.Id), amath.Vector(append([]float32(nil), op.Vec...)), nil, op.Lvl)
+			seq++
+			inv := seq
+			seq++
+			events = append(events, cEvent{w: -1, op: op, inv: inv, ret: seq, ok: err == nil})
+			versions[op.Id] = append(versions[op.Id], op)
+		}
+	}) {
+		out.Poisoned = true
+		out.Violate("C13", "deadlock/single-caller", "a single caller inserting %d items one after the other blocks for ever on an index lock it holds itself", len(c.Pre))
+		return
 	}
 	for _, ops := range c.Workers {
 		for _, op := range ops {
